@@ -87,6 +87,29 @@ theorem C22_tcp (o : Bytes) (ho : o.length ≠ 0) (destIP : Option Bytes) (port 
   have : (o.length == 0) = false := by simpa using ho
   simp [this]
 
+/-! ### port-level ownership (open finding C22-same-host-other-port)
+
+  `C22_partial` identifies "its own client" with a HOST (the IP check RFC 1928 asks for).  Read as
+  a (host, port) endpoint — the one the first accepted datagram (or the request) fixed — the
+  statement fails: another socket on the owner's host (another local user; another machine behind
+  the same NAT address) is relayed too. -/
+
+/-- Once the first accepted datagram has fixed the client's endpoint, only that port is relayed. -/
+def C22_port_statement : Prop :=
+  ∀ (ctrl destIP : Option Bytes) (port : Nat), wfRequest destIP →
+    ∀ (dgs : List (Addr × Bool)) (src : Addr) (valid : Bool),
+      let st := run (initSt ctrl destIP port) dgs
+      (recv st src valid).2 = true → ∀ a, st.actual = some a → src.port = a.port
+
+/-- Witness: TCP control connection from 127.0.0.1; the client's socket (port 4001) sends first, then
+    a second socket on 127.0.0.1 (port 4004) sends and is relayed. -/
+theorem C22_port_refuted : ¬ C22_port_statement := by
+  intro h
+  have := h (some [127, 0, 0, 1]) none 0 (by intro ip hip; cases hip)
+    [(⟨[127, 0, 0, 1], 4001⟩, true)] ⟨[127, 0, 0, 1], 4004⟩ true (by decide)
+    ⟨[127, 0, 0, 1], 4001⟩ (by decide)
+  exact absurd this (by decide)
+
 /-! ### non-vacuity and the two facets of the repaired defect -/
 
 def c1 : Addr := ⟨[127, 0, 0, 1], 4001⟩     -- the client
